@@ -271,7 +271,9 @@ def check_record_fields(ctx):
                 k = f.get("key")
                 ctx.check(k is not None and k.has_field("Record", "key") and k.has_arg(idx=1), inst, "PIN", b.path, "and keeps its key", b.where(n.id))
             else:
-                ok = vl is not None and (vl.has_call("Vec::len") or vl.has_call("Bytes::len") or vl.has_call("slice::len")) and vl.has_arg(idx=2)
+                ok = vl is not None and (vl.has_call("Vec::len") or vl.has_call("Bytes::len") or vl.has_call("slice::len")) and vl.has_arg(idx=2) and \
+                    all(any(path_matches(c.extra, w) for w in ("Vec::len", "Bytes::len", "slice::len", "Deref::deref", "AsRef::as_ref")) for c in vl.calls()) and \
+                    not any(x.k == "arg" and x.extra[0] != 2 for x in vl.walk()) and not any(x.k == "bin" for x in vl.walk())
                 ctx.check(ok, inst, "PIN", b.path, "value_len is the length of the value being stored", b.where(n.id), {"value_len": vl.show()[:60] if vl else None})
             for fld, want in (("sector", 0), ("refcount", 1), ("retired_at", 0), ("extent_state", 0)):
                 v = f.get(fld)
